@@ -146,14 +146,15 @@ func (h *hookRun) replaced(c crec) crec {
 // chain applies the hooks in registration order to the record, for one phase.
 func (hr *hrun) chain(active []int, phase, key string, n int, cur crec, calls *[]ccall) (out crec, vetoBy int) {
 	for _, id := range active {
-		h := hr.hooks[id]
+		// the registration supplies the query, the hook object phases and behaviour
+		reg, h := hr.hooks[id], hr.hooks[id].obj()
 		declared := (phase == "postget" && h.spec.PostGet) || (phase == "preput" && h.spec.PrePut)
-		if !declared || !h.matchesRec(key, cur) {
+		if !declared || !reg.matchesRec(key, cur) {
 			continue
 		}
-		*calls = append(*calls, ccall{id, phase, cur.token})
+		*calls = append(*calls, ccall{h.spec.ID, phase, cur.token})
 		if h.vetoes(phase, n) {
-			return cur, id
+			return cur, h.spec.ID
 		}
 		if h.replaces(phase, n) && (!cur.deleted || (phase == "postget" && h.spec.ReplFreshMeta)) {
 			cur = h.replaced(cur)
@@ -198,11 +199,11 @@ func (hr *hrun) judgeChain(b *vlib.Batch) {
 		var delivered *crec // record the subscriptions are notified with
 		getPart := func() (crec, bool) {
 			for _, id := range co.active {
-				h := hr.hooks[id]
-				if h.spec.PreGet && strings.HasPrefix(op.Key, h.spec.Prefix) {
-					exp = append(exp, ccall{id, "preget", ""})
+				reg, h := hr.hooks[id], hr.hooks[id].obj()
+				if h.spec.PreGet && strings.HasPrefix(op.Key, reg.spec.Prefix) {
+					exp = append(exp, ccall{h.spec.ID, "preget", ""})
 					if h.vetoes("preget", op.N) {
-						vetoBy, vetoPhase = id, "preget"
+						vetoBy, vetoPhase = h.spec.ID, "preget"
 						return crec{}, false
 					}
 				}
@@ -276,11 +277,28 @@ func (hr *hrun) judgeChain(b *vlib.Batch) {
 			return c.String()
 		}
 		em, om := map[string]int{}, map[string]int{}
+		hookOf := map[string]int{}
 		for _, c := range exp {
 			em[key(c)]++
+			hookOf[key(c)] = c.hook
 		}
 		for _, c := range obs {
 			om[key(c)]++
+			hookOf[key(c)] = c.hook
+		}
+		// precondition class of a call difference: the hook object is registered under
+		// several queries, or an ordinary chain
+		class := func(k string) string {
+			n := 0
+			for _, h := range hr.hooks {
+				if h.obj().spec.ID == hookOf[k] {
+					n++
+				}
+			}
+			if n > 1 {
+				return "same-hook-object"
+			}
+			return "chain"
 		}
 		bad := false
 		var ks []string
@@ -299,11 +317,11 @@ func (hr *hrun) judgeChain(b *vlib.Batch) {
 			case om[k] < em[k]:
 				// after a veto the model stops; the observed run may not (that is the
 				// veto-lost case below), so a missing call is always a finding
-				b.Violation("C14:hook-missed:"+phase+":chain",
+				b.Violation("C14:hook-missed:"+phase+":"+class(k),
 					fmt.Sprintf("%s of key %s: call %s is prescribed (hooks applied in registration order to the successively replaced record) but did not happen", op.Kind, op.Key, k), wit(nil))
 				bad = true
 			case om[k] > em[k]:
-				b.Violation("C14:hook-unexpected-call:"+phase+":record-mismatch:chain",
+				b.Violation("C14:hook-unexpected-call:"+phase+":record-mismatch:"+class(k),
 					fmt.Sprintf("%s of key %s: call %s happened but the hook's query does not match the record at that point of the chain", op.Kind, op.Key, k), wit(nil))
 				bad = true
 			}
@@ -442,6 +460,25 @@ func genHookChain(rng *vlib.Rand, id int) Scenario {
 		hs := HookSpec{ID: nh, Prefix: "", PostGet: true, PrePut: true, ShareWith: -1, CancelAt: -2, RegAt: -1, Cond: &Cond{Op: "tag", S: mark}}
 		sc.Hooks = append(sc.Hooks, hs)
 	}
+	// one hook object registered under two (or three) queries: a recorder for "c/",
+	// registered again for "a/" with a condition on an input tag (and again for "c/"
+	// with a Score condition); cancelling one handle must leave the others in place
+	sameObj := -1
+	var sameRegs []int
+	if rng.Chance(60, 100) {
+		sameObj = len(sc.Hooks)
+		sc.Hooks = append(sc.Hooks, HookSpec{ID: sameObj, Prefix: "c/", PreGet: true, PostGet: true, PrePut: true, ShareWith: -1, CancelAt: -2})
+		second := HookSpec{ID: sameObj + 1, Prefix: "a/", Cond: &Cond{Op: "tag", S: vlib.Pick(rng, tags...)}, SameObjAs: sameObj + 1, ShareWith: -1, CancelAt: -2}
+		if rng.Bool() {
+			second.RegAt = -1 // registered later in the script
+		}
+		sc.Hooks = append(sc.Hooks, second)
+		sameRegs = []int{sameObj, sameObj + 1}
+		if rng.Chance(40, 100) {
+			sc.Hooks = append(sc.Hooks, HookSpec{ID: sameObj + 2, Prefix: "c/", Cond: &Cond{Op: "ge", N: 50}, SameObjAs: sameObj + 1, ShareWith: -1, CancelAt: -2})
+			sameRegs = append(sameRegs, sameObj+2)
+		}
+	}
 	// subscriptions that tell the input from the stored record
 	sc.Subs = []SubSpec{
 		{ID: 0, Prefix: "", Local: true, Internal: true, ShareWith: -1, CancelAt: -1},
@@ -472,6 +509,12 @@ func genHookChain(rng *vlib.Rand, id int) Scenario {
 		op("del", n)
 		op("get", n)
 		op("put", n)
+		if sameObj >= 0 {
+			for n := 0; n < 2; n++ {
+				p.HCSteps = append(p.HCSteps, HCStep{Kind: "op", Op: &OpSpec{Kind: "put", Dir: "c/", N: n, Score: rng.Intn(100), Tag: vlib.Pick(rng, tags...)}})
+				p.HCSteps = append(p.HCSteps, HCStep{Kind: "op", Op: &OpSpec{Kind: "get", Dir: "c/", N: n}})
+			}
+		}
 	}
 	block()
 	// cancel a hook in front of the replacer, run everything again, then cancel more
@@ -480,6 +523,18 @@ func genHookChain(rng *vlib.Rand, id int) Scenario {
 	if late >= 0 {
 		p.HCSteps = append(p.HCSteps, HCStep{Kind: "register", Hook: late})
 		block()
+	}
+	if sameObj >= 0 {
+		if sc.Hooks[sameObj+1].RegAt == -1 {
+			p.HCSteps = append(p.HCSteps, HCStep{Kind: "register", Hook: sameObj + 1})
+			block()
+		}
+		// cancel the handles of the shared object one after the other, in PRNG order
+		vlib.Shuffle(rng, sameRegs)
+		for _, h := range sameRegs[:len(sameRegs)-1] {
+			p.HCSteps = append(p.HCSteps, HCStep{Kind: "cancel", Hook: h})
+			block()
+		}
 	}
 	var rest []int
 	for i := 0; i < nh; i++ {
